@@ -915,8 +915,11 @@ def run_blockretrym(case, res):
                     me.complete(k, ("done", k))
             wa = ctx.actor("W%d" % rnd, worker).go()
             if drive([wa], max_virtual=50.0) != "ok":
-                ok = False
-                break
+                # (a worker that is held up for a while is no verdict: only what is left undone at the end is)
+                res.count("blockretrym.worker_held_up")
+                if not wa.finished:
+                    ok = False
+                    break
             instr.advance(0.5)
         res.execs += 1
         check_common(res, deadlock_suffix="@blocking-throttle-below-retry/manual")
